@@ -39,7 +39,7 @@ def std(monitor, snap=False, drain=False):
 
 
 M_JOB = {'out': ['raise'], 'critical': [True], 'forever': [True],
-         'k': ['coro'], 'cdelay': [1]}
+         'k': ['coro', 'print'], 'cdelay': [1]}
 M_TOP = {'window': [1, 2], 'timeout': [1, 2, 3], 'k': ['nest'],
          'verbose': [True]}
 M_NEST = {'window': [1], 'timeout': [1, 2], 'critical': [True],
